@@ -387,6 +387,21 @@ def drain(chk, fx, hist, keys):
         chk.violation(key, "C10 %s (history: %s)" % (msg, hist), {"mode": "history", "keys": keys, "history": hist})
 
 
+def _del_runs_sorted(msgs):
+    """release notices of several proxy objects of one key dropped in one step leave in the order their finalizers happen to
+    run: consecutive DEL entries of one key are compared as a multiset"""
+    out, run = [], []
+    for m in msgs:
+        if m[0] == "DEL" and (not run or run[-1][1] == m[1]):
+            run.append(m)
+            continue
+        out += sorted(run)
+        run = [m] if m[0] == "DEL" else []
+        if m[0] != "DEL":
+            out.append(m)
+    return out + sorted(run)
+
+
 def compare(fx, st):
     if not fx.white:
         return None
@@ -402,7 +417,7 @@ def compare(fx, st):
     for nm in ("toH", "toO"):
         a = [(m["type"], m["k"], m.get("c", 0) if m["type"] == "DEL" else 0) for m in p[nm]]
         b = [(m["type"], m["k"], m.get("c", 0) if m["type"] == "DEL" else 0) for m in st[nm]]
-        if a != b:
+        if _del_runs_sorted(a) != _del_runs_sorted(b):
             return "%s %s vs spec %s" % (nm, a, b)
     return None
 
